@@ -419,6 +419,7 @@ Subscribe0(h, t, o) ==
     [] t.op = "from_iter" -> FromIter(h, o, t.items)
     [] t.op = "just" -> CallComplete(CallNext(h, o, t.a), o)
     [] t.op = "start" -> CallComplete(CallNext(h, o, t.a), o)
+    [] t.op = "from_result" -> IF t.b = 0 THEN CallComplete(CallNext(h, o, t.a), o) ELSE CallError(h, o, t.a)   \* Ok(a) = just(a); Err(a) = error(a), payload unchanged
     [] t.op = "empty" -> CallComplete(h, o)
     [] t.op = "never" -> h
     [] t.op = "error" -> CallError(h, o, t.a)
